@@ -287,9 +287,11 @@ def wfUserCore (u : User) : Bool :=
   decide (u.uid < 4294967296) && decide (u.gid < 4294967296) && decide ((renderUser u).length ≤ defaultTokenMax)
 def wfUser (u : User) : Bool := wfUserCore u && (leadSpace u.name).isNone && (trailSpace u.shell).isNone
 
-def memberSafe (t : Text) : Bool := !t.isEmpty && colonSafe t && t.all (· != ',')
+/-- the quantifier of `group_roundtrip` (`WFGroup`): member names free of `,` `:` LF CR, any number of
+members — none included — except the list `[""]`, which is written like the empty list -/
+def memberSafe (t : Text) : Bool := colonSafe t && t.all (· != ',')
 def wfGroupCore (g : Group) : Bool :=
-  colonSafe g.name && colonSafe g.password && g.members.all memberSafe && decide (g.gid < 4294967296) &&
+  colonSafe g.name && colonSafe g.password && g.members.all memberSafe && g.members != [[]] && decide (g.gid < 4294967296) &&
   decide ((renderGroup g).length ≤ defaultTokenMax)
 def wfGroup (g : Group) : Bool :=
   wfGroupCore g && (leadSpace g.name).isNone && (trailSpace (joinWith [','] g.members)).isNone
@@ -312,9 +314,8 @@ def grRW (gs : List Group) : String :=
     | some l => hexS text ++ "|" ++ ";".intercalate (l.map wGroup) ++ "|" ++ hexS (writeGroups l)
     | none => hexS text ++ "|err"
   let impl := out (loadGroups text)
-  if gs.all wfGroup then
-    let alt := out (some (gs.map fun g => if g.members = [] then { g with members := [[]] } else g))
-    triple impl (out (some gs)) (if impl = alt then "F16e" else "unlisted")
+  -- F16e is repaired: a group without members must come back without members (no class explains a difference)
+  if gs.all wfGroup then triple impl (out (some gs)) "unlisted"
   else if gs.all wfGroupCore then triple impl (out (some gs)) "F16f"
   else triple impl impl "-"
 
